@@ -522,6 +522,16 @@ func (w *treeWorld) reportAPI(id int, phase string, rs []*apiResult) {
 
 func (w *treeWorld) step(f func()) {
 	f()
+	if !w.perturb {
+		// no sleeps injected: once every goroutine is durably blocked, and before any virtual time has passed,
+		// every healthy leaf must already hold whatever this step delivers to it
+		synctest.Wait()
+		for _, n := range w.nodes {
+			if n.events != nil && !n.stalled && !n.closed {
+				w.tr.line(kv.L("instant", fmt.Sprint(n.id), fmt.Sprint(len(n.events))))
+			}
+		}
+	}
 	w.wait()
 	w.observe()
 }
